@@ -1,4 +1,6 @@
-"""U-recon: core/src/reconcile.rs :: check_type, verbatim, over the real RustType / SpecialRustType.  Serves C09 (kernel): after
+"""U-recon: core/src/reconcile.rs :: check_type, check_variant and the per-crate block of reconcile_aliases that applies them to every struct
+field, enum variant and alias (T11), verbatim, over the real RustType / RustField / RustEnumVariant / RustStruct / RustEnum /
+RustTypeAlias.  Serves C09 (kernel): after
 reconciliation every mention of a type whose definition is emitted under a serde-renamed name - as a plain type, as a generic
 type, inside Vec / array / slice / Option / HashMap, at any depth - is spelled with that name, and nothing else in the type
 expression changes (generic parameters are never renamed).  C07: recursion terminates, no panic."""
@@ -8,11 +10,18 @@ from vunit import Item, Unit
 RT = 'core/src/rust_types.rs'
 
 PRE_VERUS = r'''
-use std::collections::{HashMap, HashSet};
+use std::collections::{HashMap, HashSet, BTreeSet};
+use vstd::std_specs::iter::IteratorSpec;
 '''
 
 PRELUDE = r'''
 // ---------- T7 stubs
+#[verifier::external_body] pub struct DecoratorMap { _p: u8 }
+#[verifier::external_body] pub struct ParsedRest { _p: u8 }
+/// the item vectors reconcile_aliases rewrites (the other fields of ParsedData are not touched by the lifted block)
+pub struct ParsedData { pub structs: Vec<RustStruct>, pub enums: Vec<RustEnum>, pub aliases: Vec<RustTypeAlias>, pub rest: ParsedRest }
+#[verifier::external_body] pub struct FieldDecorator { _p: u8 }
+#[verifier::external_body] pub struct SupportedLanguage { _p: u8 }
 #[verifier::external_body] pub struct CrateName { _p: u8 }
 #[verifier::external_body] pub struct ImportedType { _p: u8 }
 /// reconcile.rs: `type RenamedTypes = HashMap<String, HashMap<CrateName, String>>`
@@ -33,40 +42,241 @@ fn resolve_renamed(crate_name: &CrateName, serde_renamed: &RenamedTypes, import_
 pub open spec fn new_name(c: &CrateName, m: &RenamedTypes, i: &HashSet<ImportedType>, id: String) -> String {
     match resolved(c, m, i, id@) { Some(n) => n, None => id }
 }
-/// C09: the type expression with every mentioned type name replaced by the name its definition is emitted under
-pub open spec fn rw(c: &CrateName, m: &RenamedTypes, i: &HashSet<ImportedType>, t: RustType) -> RustType
-    decreases t
+/// C09: `b` is `a` with every mentioned type name replaced by the name its definition is emitted under, and nothing else changed
+/// (relational form: no Vec / Box has to be constructed in a specification)
+pub open spec fn rewritten(c: &CrateName, m: &RenamedTypes, i: &HashSet<ImportedType>, a: RustType, b: RustType) -> bool
+    decreases a
 {
-    match t {
-        RustType::Simple { id } => RustType::Simple { id: new_name(c, m, i, id) },
-        RustType::Generic { id, parameters } => RustType::Generic { id: new_name(c, m, i, id), parameters: rw_vec(c, m, i, parameters) },
-        RustType::Special(s) => RustType::Special(match s {
-            SpecialRustType::Vec(a) => SpecialRustType::Vec(Box::new(rw(c, m, i, *a))),
-            SpecialRustType::Array(a, n) => SpecialRustType::Array(Box::new(rw(c, m, i, *a)), n),
-            SpecialRustType::Slice(a) => SpecialRustType::Slice(Box::new(rw(c, m, i, *a))),
-            SpecialRustType::Option(a) => SpecialRustType::Option(Box::new(rw(c, m, i, *a))),
-            SpecialRustType::HashMap(a, b) => SpecialRustType::HashMap(Box::new(rw(c, m, i, *a)), Box::new(rw(c, m, i, *b))),
-            other => other,
-        }),
+    match a {
+        RustType::Simple { id } => b == (RustType::Simple { id: new_name(c, m, i, id) }),
+        RustType::Generic { id, parameters } => match b {
+            RustType::Generic { id: id2, parameters: p2 } => id2 == new_name(c, m, i, id) && p2@.len() == parameters@.len()
+                && forall|k: int| 0 <= k < parameters@.len() ==> rewritten(c, m, i, #[trigger] parameters@[k], p2@[k]),
+            _ => false,
+        },
+        RustType::Special(s) => match b { RustType::Special(s2) => match (s, s2) {
+            (SpecialRustType::Vec(x), SpecialRustType::Vec(y)) => rewritten(c, m, i, *x, *y),
+            (SpecialRustType::Array(x, n), SpecialRustType::Array(y, n2)) => n == n2 && rewritten(c, m, i, *x, *y),
+            (SpecialRustType::Slice(x), SpecialRustType::Slice(y)) => rewritten(c, m, i, *x, *y),
+            (SpecialRustType::Option(x), SpecialRustType::Option(y)) => rewritten(c, m, i, *x, *y),
+            (SpecialRustType::HashMap(x1, x2), SpecialRustType::HashMap(y1, y2)) => rewritten(c, m, i, *x1, *y1) && rewritten(c, m, i, *x2, *y2),
+            (SpecialRustType::Vec(_), _) | (SpecialRustType::Array(_, _), _) | (SpecialRustType::Slice(_), _) | (SpecialRustType::Option(_), _)
+                | (SpecialRustType::HashMap(_, _), _) => false,
+            (other, other2) => other == other2,
+        }, _ => false },
     }
 }
-/// the argument list rewritten element-wise (a Vec is determined by its view)
-pub uninterp spec fn rw_vec(c: &CrateName, m: &RenamedTypes, i: &HashSet<ImportedType>, v: Vec<RustType>) -> Vec<RustType>;
+/// a field after reconciliation: only its type expression is rewritten
+pub open spec fn field_rewritten(c: &CrateName, m: &RenamedTypes, i: &HashSet<ImportedType>, a: RustField, b: RustField) -> bool {
+    rewritten(c, m, i, a.ty, b.ty) && b.id == a.id && b.comments == a.comments && b.has_default == a.has_default && b.decorators == a.decorators
+}
+pub open spec fn fields_rewritten(c: &CrateName, m: &RenamedTypes, i: &HashSet<ImportedType>, a: Seq<RustField>, b: Seq<RustField>) -> bool {
+    a.len() == b.len() && forall|k: int| 0 <= k < a.len() ==> field_rewritten(c, m, i, #[trigger] a[k], b[k])
+}
+/// C09 for an enum variant: the payload type / every struct-variant field type is rewritten, the variant itself is kept
+pub open spec fn variant_rewritten(c: &CrateName, m: &RenamedTypes, i: &HashSet<ImportedType>, a: RustEnumVariant, b: RustEnumVariant) -> bool {
+    match a {
+        RustEnumVariant::Unit(sh) => b == a,
+        RustEnumVariant::Tuple { ty, shared } => match b { RustEnumVariant::Tuple { ty: ty2, shared: sh2 } => sh2 == shared && rewritten(c, m, i, ty, ty2), _ => false },
+        RustEnumVariant::AnonymousStruct { fields, shared } => match b {
+            RustEnumVariant::AnonymousStruct { fields: f2, shared: sh2 } => sh2 == shared && fields_rewritten(c, m, i, fields@, f2@), _ => false },
+    }
+}
+pub open spec fn struct_rewritten(c: &CrateName, m: &RenamedTypes, i: &HashSet<ImportedType>, a: RustStruct, b: RustStruct) -> bool {
+    fields_rewritten(c, m, i, a.fields@, b.fields@) && b.id == a.id && b.generic_types == a.generic_types && b.comments == a.comments
+        && b.decorators == a.decorators && b.is_redacted == a.is_redacted
+}
+pub open spec fn shared_rewritten(c: &CrateName, m: &RenamedTypes, i: &HashSet<ImportedType>, a: RustEnumShared, b: RustEnumShared) -> bool {
+    b.id == a.id && b.generic_types == a.generic_types && b.comments == a.comments && b.decorators == a.decorators
+        && b.is_recursive == a.is_recursive && b.is_redacted == a.is_redacted
+        && b.variants@.len() == a.variants@.len()
+        && forall|k: int| 0 <= k < a.variants@.len() ==> variant_rewritten(c, m, i, #[trigger] a.variants@[k], b.variants@[k])
+}
+pub open spec fn enum_rewritten(c: &CrateName, m: &RenamedTypes, i: &HashSet<ImportedType>, a: RustEnum, b: RustEnum) -> bool {
+    match a {
+        RustEnum::Unit(sh) => match b { RustEnum::Unit(sh2) => shared_rewritten(c, m, i, sh, sh2), _ => false },
+        RustEnum::Algebraic { tag_key, content_key, shared } => match b {
+            RustEnum::Algebraic { tag_key: t2, content_key: c2, shared: sh2 } => t2 == tag_key && c2 == content_key && shared_rewritten(c, m, i, shared, sh2), _ => false },
+    }
+}
+pub open spec fn alias_rewritten(c: &CrateName, m: &RenamedTypes, i: &HashSet<ImportedType>, a: RustTypeAlias, b: RustTypeAlias) -> bool {
+    rewritten(c, m, i, a.r#type, b.r#type) && b.id == a.id && b.generic_types == a.generic_types && b.comments == a.comments
+        && b.decorators == a.decorators && b.is_redacted == a.is_redacted
+}
 '''
+
+VARIANT = [
+    ins(A.sig(), '''
+    ensures /*C09*/ final(variants)@.len() == old(variants)@.len(),
+        forall|k: int| 0 <= k < old(variants)@.len() ==> variant_rewritten(crate_name, serde_renamed, imported_types, #[trigger] old(variants)@[k], final(variants)@[k]),
+''', cid='check_variant.contract'),
+    ins(A.body_start(), '''
+    let ghost v0 = variants@;'''),
+    rep(A.text('for v in variants'), 'for v in it: variants.iter_mut()', tag='T4', note='IntoIterator for &mut Vec<T> is iter_mut() (std documentation)'),
+    ins(A.loop(0), """
+        invariant
+            v0 == old(variants)@, it.snapshot@.remaining().len() == v0.len(),
+            forall|k: int| 0 <= k < v0.len() ==> *final(#[trigger] it.snapshot@.remaining()[k]) == final(variants)@[k],
+            forall|k: int| 0 <= k < v0.len() ==> *(#[trigger] it.snapshot@.remaining()[k]) == v0[k],
+            it.history@ =~= it.snapshot@.remaining().take(it.index@ as int),
+            it.index@ <= v0.len(),
+            it.iter.remaining() =~= it.snapshot@.remaining().skip(it.index@ as int),
+            forall|k: int| 0 <= k < it.index@ ==> variant_rewritten(crate_name, serde_renamed, imported_types, v0[k], #[trigger] final(variants)@[k]),
+    """, cid='check_variant.variants_invariant'),
+    ins(A.loop_body(0), """
+        let ghost k0 = it.index@;
+        let ghost va = *v;
+        proof { assert(it.snapshot@.remaining()[k0] == v); assert(va == v0[k0]); }"""),
+    rep(A.text('for f in fields'), 'for f in it2: fields.iter_mut()', tag='T4'),
+    ins(A.text('for f in fields'), """let ghost f0 = fields@;
+                """, where='before'),
+    ins(A.loop(1), """
+                    invariant
+                        it2.snapshot@.remaining().len() == f0.len(),
+                        forall|k: int| 0 <= k < f0.len() ==> *final(#[trigger] it2.snapshot@.remaining()[k]) == final(fields)@[k],
+                        forall|k: int| 0 <= k < f0.len() ==> *(#[trigger] it2.snapshot@.remaining()[k]) == f0[k],
+                        it2.history@ =~= it2.snapshot@.remaining().take(it2.index@ as int),
+                        it2.index@ <= f0.len(),
+                        it2.iter.remaining() =~= it2.snapshot@.remaining().skip(it2.index@ as int),
+                        forall|k: int| 0 <= k < it2.index@ ==> field_rewritten(crate_name, serde_renamed, imported_types, f0[k], #[trigger] final(fields)@[k]),
+                """, cid='check_variant.fields_invariant'),
+    ins(A.loop_body(1), """
+                    let ghost j0 = it2.index@;
+                    proof { assert(it2.snapshot@.remaining()[j0] == f); assert(*f == f0[j0]); }"""),
+]
+
+BLOCK_WRAP = ("""fn rename_references_block(crate_name: &CrateName, serde_renamed: RenamedTypes, import_types: HashSet<ImportedType>, parsed_data: &mut ParsedData)
+    ensures
+        /*C09: after the block every field / variant payload / alias target of the crate's data is rewritten, nothing else changes*/
+        final(parsed_data).structs@.len() == old(parsed_data).structs@.len(),
+        forall|k: int| 0 <= k < old(parsed_data).structs@.len() ==> struct_rewritten(crate_name, &serde_renamed, &import_types, #[trigger] old(parsed_data).structs@[k], final(parsed_data).structs@[k]),
+        final(parsed_data).enums@.len() == old(parsed_data).enums@.len(),
+        forall|k: int| 0 <= k < old(parsed_data).enums@.len() ==> enum_rewritten(crate_name, &serde_renamed, &import_types, #[trigger] old(parsed_data).enums@[k], final(parsed_data).enums@[k]),
+        final(parsed_data).aliases@.len() == old(parsed_data).aliases@.len(),
+        forall|k: int| 0 <= k < old(parsed_data).aliases@.len() ==> alias_rewritten(crate_name, &serde_renamed, &import_types, #[trigger] old(parsed_data).aliases@[k], final(parsed_data).aliases@[k]),
+{
+    let ghost s0 = parsed_data.structs@;
+    let ghost e0 = parsed_data.enums@;
+    let ghost a0 = parsed_data.aliases@;
+""", "\n}\n")
+
+BLOCK = [
+    # ---- structs
+    rep(A.text('for s in &mut parsed_data.structs'), 'let structs__ = &mut parsed_data.structs; for s in its: structs__.iter_mut()', tag='T4', note='IntoIterator for &mut Vec<T> is iter_mut(); the reborrow is named so that its final value can be mentioned'),
+    ins(A.loop(0, fn='<block>'), """
+            invariant
+            its.snapshot@.remaining().len() == s0.len(),
+            forall|k: int| 0 <= k < s0.len() ==> *final(#[trigger] its.snapshot@.remaining()[k]) == final(structs__)@[k],
+            forall|k: int| 0 <= k < s0.len() ==> *(#[trigger] its.snapshot@.remaining()[k]) == s0[k],
+            its.history@ =~= its.snapshot@.remaining().take(its.index@ as int),
+            its.index@ <= s0.len(),
+            its.iter.remaining() =~= its.snapshot@.remaining().skip(its.index@ as int),
+                parsed_data.enums@ == e0, parsed_data.aliases@ == a0,
+                forall|k: int| 0 <= k < its.index@ ==> struct_rewritten(crate_name, &serde_renamed, &import_types, s0[k], #[trigger] final(structs__)@[k]),
+        """, cid='block.structs_invariant'),
+    ins(A.loop_body(0, fn='<block>'), """
+            let ghost k0 = its.index@;
+            let ghost sa = *s;
+            proof { assert(its.snapshot@.remaining()[k0] == s); assert(sa == s0[k0]); }"""),
+    drop(A.text('debug!("struct: {}", s.id.original);'), tag='T6'),
+    rep(A.text('for f in &mut s.fields'), 'for f in itf: s.fields.iter_mut()', tag='T4'),
+    ins(A.text('for f in &mut s.fields'), """let ghost f0 = s.fields@;
+            """, where='before'),
+    ins(A.loop(1, fn='<block>'), """
+                invariant
+                    itf.snapshot@.remaining().len() == f0.len(),
+                    forall|k: int| 0 <= k < f0.len() ==> *final(#[trigger] itf.snapshot@.remaining()[k]) == final(s).fields@[k],
+                    forall|k: int| 0 <= k < f0.len() ==> *(#[trigger] itf.snapshot@.remaining()[k]) == f0[k],
+                    itf.history@ =~= itf.snapshot@.remaining().take(itf.index@ as int),
+                    itf.index@ <= f0.len(),
+                    itf.iter.remaining() =~= itf.snapshot@.remaining().skip(itf.index@ as int),
+                    forall|k: int| 0 <= k < itf.index@ ==> field_rewritten(crate_name, &serde_renamed, &import_types, f0[k], #[trigger] final(s).fields@[k]),
+            """, cid='block.fields_invariant'),
+    ins(A.loop_body(1, fn='<block>'), """
+                let ghost j0 = itf.index@;
+                proof { assert(itf.snapshot@.remaining()[j0] == f); assert(*f == f0[j0]); }"""),
+    ins(A.loop_after(0, fn='<block>'), """
+        let ghost s1 = parsed_data.structs@;
+        proof { assert(s1.len() == s0.len()); assert forall|k: int| 0 <= k < s0.len() implies struct_rewritten(crate_name, &serde_renamed, &import_types, #[trigger] s0[k], s1[k]) by {} }"""),
+    # ---- enums
+    rep(A.text('for e in &mut parsed_data.enums'), 'let enums__ = &mut parsed_data.enums; for e in ite: enums__.iter_mut()', tag='T4'),
+    ins(A.loop(2, fn='<block>'), """
+            invariant
+            ite.snapshot@.remaining().len() == e0.len(),
+            forall|k: int| 0 <= k < e0.len() ==> *final(#[trigger] ite.snapshot@.remaining()[k]) == final(enums__)@[k],
+            forall|k: int| 0 <= k < e0.len() ==> *(#[trigger] ite.snapshot@.remaining()[k]) == e0[k],
+            ite.history@ =~= ite.snapshot@.remaining().take(ite.index@ as int),
+            ite.index@ <= e0.len(),
+            ite.iter.remaining() =~= ite.snapshot@.remaining().skip(ite.index@ as int),
+                parsed_data.structs@ == s1, parsed_data.aliases@ == a0,
+                forall|k: int| 0 <= k < ite.index@ ==> enum_rewritten(crate_name, &serde_renamed, &import_types, e0[k], #[trigger] final(enums__)@[k]),
+        """, cid='block.enums_invariant'),
+    ins(A.loop_body(2, fn='<block>'), """
+            let ghost k0 = ite.index@;
+            proof { assert(ite.snapshot@.remaining()[k0] == e); assert(*e == e0[k0]); }"""),
+    drop(A.text('debug!("enum: {}", e.shared().id.original);'), tag='T6'),
+    ins(A.loop_after(2, fn='<block>'), """
+        let ghost e1 = parsed_data.enums@;
+        proof { assert(e1.len() == e0.len()); assert forall|k: int| 0 <= k < e0.len() implies enum_rewritten(crate_name, &serde_renamed, &import_types, #[trigger] e0[k], e1[k]) by {} }"""),
+    # ---- aliases
+    rep(A.text('for a in &mut parsed_data.aliases'), 'let aliases__ = &mut parsed_data.aliases; for a in ita: aliases__.iter_mut()', tag='T4'),
+    ins(A.loop(3, fn='<block>'), """
+            invariant
+            ita.snapshot@.remaining().len() == a0.len(),
+            forall|k: int| 0 <= k < a0.len() ==> *final(#[trigger] ita.snapshot@.remaining()[k]) == final(aliases__)@[k],
+            forall|k: int| 0 <= k < a0.len() ==> *(#[trigger] ita.snapshot@.remaining()[k]) == a0[k],
+            ita.history@ =~= ita.snapshot@.remaining().take(ita.index@ as int),
+            ita.index@ <= a0.len(),
+            ita.iter.remaining() =~= ita.snapshot@.remaining().skip(ita.index@ as int),
+                parsed_data.structs@ == s1, parsed_data.enums@ == e1,
+                forall|k: int| 0 <= k < ita.index@ ==> alias_rewritten(crate_name, &serde_renamed, &import_types, a0[k], #[trigger] final(aliases__)@[k]),
+        """, cid='block.aliases_invariant'),
+    ins(A.loop_body(3, fn='<block>'), """
+            let ghost k0 = ita.index@;
+            proof { assert(ita.snapshot@.remaining()[k0] == a); assert(*a == a0[k0]); }"""),
+]
 
 CHECK = [
     ins(A.sig(), '''
-    ensures /*C09*/ *final(ty) == rw(crate_name, serde_renamed, import_types, *old(ty)),
+    ensures /*C09*/ rewritten(crate_name, serde_renamed, import_types, *old(ty), *final(ty)),
     decreases *old(ty)
 ''', cid='check_type.contract'),
+    ins(A.body_start(), '''
+    let ghost t0 = *ty;'''),
     drop(A.text('debug!("checking type: {ty:?}");'), tag='T6'),
     drop(A.text('info!("renaming type from {id} to {renamed}");', nth=1), tag='T6'),
     drop(A.text('info!("renaming type from {id} to {renamed}");', nth=2), tag='T6'),
     drop(A.text('debug!("{crate_name} looking up original name {id}");'), tag='T6'),
-    rep(A.span('for ty in parameters {', 'check_type(crate_name, serde_renamed, import_types, ty); }'),
-        'outlined_each_parameter(crate_name, serde_renamed, import_types, parameters);', tag='T3', cid='o_params',
-        note='`for ty in parameters` over &mut Vec is slice::IterMut: vstd models it with prophecy variables whose loop-invariant interface '
-             'could not be used here; the loop is outlined and its element-wise effect ASSUMED'),
+    # T4: `for ty in parameters` over `&mut Vec<RustType>` is `parameters.iter_mut()` (std: IntoIterator for &mut Vec<T>);
+    # T12: the loop variable `ty` shadows the parameter `ty`, which the termination measure has to name: alpha-renamed to `ty__`
+    rep(A.text('for ty in parameters'), 'for ty__ in it: parameters.iter_mut()', tag='T4',
+        note='IntoIterator for &mut Vec<T> is iter_mut() (std documentation); loop variable alpha-renamed (T12) because it shadows the parameter'),
+    rep(A.text('check_type(crate_name, serde_renamed, import_types, ty);', nth=1), 'check_type(crate_name, serde_renamed, import_types, ty__);', tag='T12',
+        note='alpha-renaming of the shadowing loop variable'),
+    ins(A.text('for ty in parameters'), """let ghost p0 = parameters@;
+            let ghost id0 = *id;
+            proof {
+                assert(t0 is Generic && t0->parameters == *parameters);
+                assert forall|k: int| 0 <= k < p0.len() implies decreases_to!(t0 => #[trigger] p0[k]) by {
+                    assert(decreases_to!(t0 => t0->parameters)); assert(decreases_to!(t0->parameters => p0)); assert(decreases_to!(p0 => p0[k]));
+                }
+            }
+            """, where='before'),
+    ins(A.loop(0), """
+                invariant
+                    it.snapshot@.remaining().len() == p0.len(),
+                    forall|k: int| 0 <= k < p0.len() ==> *final(#[trigger] it.snapshot@.remaining()[k]) == final(parameters)@[k],
+                    forall|k: int| 0 <= k < p0.len() ==> *(#[trigger] it.snapshot@.remaining()[k]) == p0[k],
+                    it.history@ =~= it.snapshot@.remaining().take(it.index@ as int),
+                    it.index@ <= p0.len(),
+                    it.iter.remaining() =~= it.snapshot@.remaining().skip(it.index@ as int),
+                    t0 == *old(ty),
+                    forall|k: int| 0 <= k < p0.len() ==> decreases_to!(t0 => #[trigger] p0[k]),
+                    forall|k: int| 0 <= k < it.index@ ==> rewritten(crate_name, serde_renamed, import_types, p0[k], #[trigger] final(parameters)@[k]),
+            """, cid='check_type.arguments_invariant'),
+    ins(A.loop_body(0), """
+                let ghost k0 = it.index@;
+                proof { assert(it.snapshot@.remaining()[k0] == ty__); assert(*ty__ == p0[k0]); assert(decreases_to!(t0 => p0[k0])); }"""),
 ]
 
 UNIT = Unit(
@@ -77,22 +287,30 @@ UNIT = Unit(
     items=[
         Item('enum_RustType', RT, ['enum RustType']),
         Item('enum_SpecialRustType', RT, ['enum SpecialRustType']),
+        Item('struct_Id', RT, ['struct Id']),
+        Item('struct_RustField', RT, ['struct RustField']),
+        Item('enum_RustEnumVariant', RT, ['enum RustEnumVariant']),
+        Item('struct_RustEnumVariantShared', RT, ['struct RustEnumVariantShared']),
         Item('check_type', 'core/src/reconcile.rs', ['fn check_type'], CHECK),
+        Item('check_variant', 'core/src/reconcile.rs', ['fn check_variant'], VARIANT),
+        Item('struct_RustStruct', RT, ['struct RustStruct']),
+        Item('enum_RustEnum', RT, ['enum RustEnum']),
+        Item('struct_RustEnumShared', RT, ['struct RustEnumShared']),
+        Item('struct_RustTypeAlias', RT, ['struct RustTypeAlias']),
+        Item('rename_references_block', 'core/src/reconcile.rs', ['fn reconcile_aliases'], BLOCK, wrap=BLOCK_WRAP,
+             block=(A.text('let import_types = mem::take(&mut parsed_data.import_types);'), A.text('// Apply sorting') if False else A.text('parsed_data.structs.sort();'))),
     ],
-    outlines={
-        'o_params': {'decl': '''fn outlined_each_parameter(crate_name: &CrateName, serde_renamed: &RenamedTypes, import_types: &HashSet<ImportedType>, parameters: &mut Vec<RustType>)
-    ensures *final(parameters) == rw_vec(crate_name, serde_renamed, import_types, *old(parameters))''', 'compile': False},
-    },
-    functions=['check_type'],
+    functions=['check_type', 'check_variant', 'rename_references_block'],
     trusted=[
-        'outlined (T3): the loop `for ty in parameters { check_type(.., ty) }` rewrites the argument list element-wise (rw_vec uninterpreted); '
-        'the recursion through this loop is therefore assumed, and with it termination on that path',
+        'T4: `for ty in parameters` (parameters: &mut Vec<RustType>) is verified as `for ty in parameters.iter_mut()` (std: IntoIterator for &mut Vec<T>); '
+        'vstd\'s prophetic specification of slice::IterMut is trusted',
         'stub: resolve_renamed is a pure function of (crate, rename table, imports, name) (iterator/closure chain, not under contract)',
         'std: ToOwned::to_owned clones; T7 stubs CrateName, ImportedType',
     ],
     undecided=[
         'which name a definition is emitted under is chosen in the back ends\' format strings (Kotlin / Scala / Go define some items under id.original): text emission',
-        'the loops of reconcile_aliases / check_variant over `&mut` vectors (slice::IterMut) that apply check_type to every field, variant and alias',
+        'the outer loop of reconcile_aliases over the crates (`&mut BTreeMap`, no vstd iterator model), mem::take / restore of import_types, and '
+        'collect_serde_renames (iterator chains) that builds the rename table',
         'prefixing (Swift / Kotlin prefix) is done at emission time',
     ],
 )
